@@ -672,15 +672,31 @@ def Pattern.isMatch (p : Pattern) (text : List Char) : Bool :=
     | true, true => decide (text = s)
   | .regex re dot => (findAt (!p.config.shortest) re text (Pattern.at0 p.config dot text)).isSome
 
-/-- the `while let` loop of `Pattern::rfind` -/
+/-- byte offset (in the UTF-8 encoding) of the character index `i` -/
+def byteOffset (text : List Char) (i : Nat) : Nat := utf8Len (text.take i)
+
+/-- `(start + 1 ..= text.len()).find(|&index| text.is_char_boundary(index))`, by walking the encoded
+    characters (1–4 bytes each): the first char boundary strictly after byte offset `start`, as
+    (character index, byte offset); `idx`/`off` = index and offset of the head of the remaining text. -/
+def nextBoundaryFrom (idx off start : Nat) : List Char → Option (Nat × Nat)
+  | [] => none
+  | c :: t =>
+    if start < off + c.utf8Size then some (idx + 1, off + c.utf8Size)
+    else nextBoundaryFrom (idx + 1) (off + c.utf8Size) start t
+
+def nextBoundary (text : List Char) (start : Nat) : Option (Nat × Nat) := nextBoundaryFrom 0 0 start text
+
+/-- the `while let` loop of `Pattern::rfind`: from the start of the current match, step to the next char
+    boundary (byte-wise, see `nextBoundary`) and search again -/
 def rfindLoop (g : Bool) (re : List ReAtom) (text : List Char) : Nat → Nat × Nat → Nat × Nat
   | 0, cur => cur
   | fuel + 1, cur =>
-    if cur.1 + 1 ≤ text.length then
-      match findAt g re text (cur.1 + 1) with
+    match nextBoundary text (byteOffset text cur.1) with
+    | some (i, _) =>
+      match findAt g re text i with
       | some r => rfindLoop g re text fuel r
       | none => cur
-    else cur
+    | none => cur
 
 /-- `Pattern::rfind` -/
 def Pattern.rfind (p : Pattern) (text : List Char) : Option (Nat × Nat) :=
